@@ -24,8 +24,8 @@ import common
 from common import coq_list, coq_z
 
 THEOREMS = ["C20_status", "C20_caught", "C20_total_schema_deser", "C20_total_partial", "C20_total_refuted",
-            "C20_equiv_sound", "C20_missing_attributes", "C20_equiv_complete_partial",
-            "C20_equiv_complete_refuted", "C20_tables_nonempty"]
+            "C20_equiv_sound", "C20_missing_attributes", "C20_equiv_complete",
+            "C20_equiv_detects_example", "C20_tables_nonempty"]
 
 PRELUDE = ("From Coq Require Import List ZArith String.\n"
            "From Basyx Require Import model.Compliance model.ComplianceObs gen.Gen_Compliance proofs.ComplianceProofs.\n"
@@ -179,6 +179,7 @@ def crafted_aasx(tmp):
     import datetime
     res = {}
     full = example_stores()["full"]
+    logging.disable(logging.CRITICAL)      # the writer's warnings about these inputs are expected
     # a File value climbing above the package root
     sm = model.Submodel("urn:x:sm", [model.File("f", "application/pdf", value="../../../z.pdf")])
     st = model.DictObjectStore([sm])
@@ -220,6 +221,7 @@ def crafted_aasx(tmp):
     p = os.path.join(tmp, "nocore.aasx")
     write_store(full, "aasx-json", p)
     res["aasx-no-core"] = p
+    logging.disable(logging.NOTSET)
     return res
 
 
@@ -375,7 +377,7 @@ def run(chk):
     rng = chk.rng
     quick = chk.tier == "quick"
     logging.disable(logging.NOTSET)
-    logging.lastResort = None     # SDK warnings about the crafted inputs are not part of the verdict
+    logging.getLogger("basyx").addHandler(logging.NullHandler())   # SDK warnings about crafted inputs: not part of the verdict
     # --- tie T: regenerate the tables from the current sources
     gen = None
     try:
